@@ -104,10 +104,12 @@ func (p *Processor) handleMessage(ctx context.Context, k *common.MessagePublicat
 		// unmarshal vaa
 		var existing *vaa.VAA
 		if existing, err = vaa.Unmarshal(vb); err != nil {
-			panic("failed to unmarshal VAA from db")
-		}
-
-		if k.Timestamp.Sub(existing.Timestamp) > settlementTime {
+			// A stored VAA that cannot be decoded (e.g. one with an empty payload) must not
+			// take the node down; process the observation as if no usable VAA was stored.
+			p.logger.Error("failed to unmarshal VAA from db",
+				zap.String("message_id", v.MessageID()),
+				zap.Error(err))
+		} else if k.Timestamp.Sub(existing.Timestamp) > settlementTime {
 			p.logger.Info("ignoring observation since we already have a quorum VAA for it",
 				zap.Stringer("emitter_chain", k.EmitterChain),
 				zap.Stringer("target_chain", k.TargetChain),
